@@ -23,6 +23,11 @@ bool QXmppArchiveManager::handleStanza(const QDomElement &element)
         return false;
     }
 
+    // only responses are handled here; requests get the default error reply
+    if (const auto type = element.attribute(QStringLiteral("type")); type == u"get" || type == u"set") {
+        return false;
+    }
+
     // XEP-0136: Message Archiving
     if (QXmppArchiveChatIq::isArchiveChatIq(element)) {
         QXmppArchiveChatIq archiveIq;
